@@ -263,6 +263,6 @@ def cargo_parse(cargo_ver: str) -> T.Callable[[str], bool]:
                 return False
         return True
 
-    if not out:
-        return lambda v: True
+    # Without any constraint (empty requirement or ``*``) compare() still
+    # applies the pre-release gate: such a requirement names no pre-release.
     return compare
